@@ -194,6 +194,223 @@ impl UdpSocket {
     }
 }
 
+// ---- network: TCP ---------------------------------------------------------
+/// One end of a simulated TCP connection. The simulator owns segmentation, latency, ordering, FIN and RST.
+pub trait SimTcpStream: Send + Sync + 'static {
+    fn local_addr(&self) -> io::Result<SocketAddr>;
+    fn peer_addr(&self) -> io::Result<SocketAddr>;
+    /// Ready(Ok) once the three-way handshake completed, Ready(Err) when it was refused / reset / timed out.
+    fn poll_connected(&self, cx: &mut Context<'_>) -> Poll<io::Result<()>>;
+    /// Ok(0) = the peer closed its sending direction (FIN). May return fewer bytes than are buffered.
+    fn poll_read(&self, cx: &mut Context<'_>, buf: &mut [u8]) -> Poll<io::Result<usize>>;
+    /// Accepts a prefix of `buf` (possibly all of it); never blocks. A closed or reset connection is an error.
+    fn try_write(&self, buf: &[u8]) -> io::Result<usize>;
+    /// Close this end's sending direction (FIN after the bytes written so far).
+    fn shutdown_write(&self);
+    /// Both halves are gone: the socket is closed (later segments from the peer are answered by RST).
+    fn close(&self);
+}
+pub trait SimTcpListener: Send + Sync + 'static {
+    fn local_addr(&self) -> io::Result<SocketAddr>;
+    fn poll_accept(&self, cx: &mut Context<'_>) -> Poll<io::Result<(Arc<dyn SimTcpStream>, SocketAddr)>>;
+}
+/// Installed by the simulator: `listen` binds a listener, `connect` sends a SYN and returns the connecting end.
+pub trait SimTcp: 'static {
+    fn listen(&self, addr: SocketAddr) -> io::Result<Arc<dyn SimTcpListener>>;
+    fn connect(&self, to: SocketAddr) -> io::Result<Arc<dyn SimTcpStream>>;
+}
+thread_local! { static TCP: RefCell<Option<Arc<dyn SimTcp>>> = const { RefCell::new(None) }; }
+pub fn set_tcp_binder(b: Option<Arc<dyn SimTcp>>) { TCP.with(|c| *c.borrow_mut() = b); }
+fn tcp_binder() -> io::Result<Arc<dyn SimTcp>> {
+    TCP.with(|c| c.borrow().clone()).ok_or_else(|| io::Error::other("no simulated TCP network installed"))
+}
+fn first_addr<A: ToSocketAddrs>(addr: A) -> io::Result<SocketAddr> {
+    addr.to_socket_addrs()?.next().ok_or_else(|| io::Error::new(io::ErrorKind::InvalidInput, "no address"))
+}
+/// One simulated "send buffer momentarily full" decision (never twice in a row on this thread).
+fn io_block_once() -> bool {
+    let block = !JUST_BLOCKED.with(|c| c.replace(false))
+        && IO_YIELD.with(|c| c.borrow_mut().as_mut().map(|f| f()).unwrap_or(false));
+    if block {
+        JUST_BLOCKED.with(|c| c.set(true));
+    }
+    block
+}
+
+/// Drop-in for `tokio::net::TcpListener` over a simulated listener.
+pub struct TcpListener(Arc<dyn SimTcpListener>);
+impl std::fmt::Debug for TcpListener {
+    fn fmt(&self, f: &mut std::fmt::Formatter<'_>) -> std::fmt::Result { write!(f, "SimTcpListener({:?})", self.0.local_addr()) }
+}
+impl TcpListener {
+    pub async fn bind<A: ToSocketAddrs>(addr: A) -> io::Result<Self> { Ok(Self(tcp_binder()?.listen(first_addr(addr)?)?)) }
+    pub fn local_addr(&self) -> io::Result<SocketAddr> { self.0.local_addr() }
+    pub async fn accept(&self) -> io::Result<(TcpStream, SocketAddr)> {
+        let (s, peer) = poll_fn(|cx| self.0.poll_accept(cx)).await?;
+        Ok((TcpStream::from_sim(s), peer))
+    }
+}
+
+struct TcpShared {
+    sim: Arc<dyn SimTcpStream>,
+    /// halves still alive (2 after into_split); the socket closes when the last one goes
+    halves: std::sync::atomic::AtomicUsize,
+}
+impl TcpShared {
+    fn release(&self) {
+        if self.halves.fetch_sub(1, std::sync::atomic::Ordering::SeqCst) == 1 {
+            self.sim.close();
+        }
+    }
+}
+fn tcp_poll_write(sim: &Arc<dyn SimTcpStream>, yielded: &mut bool, cx: &mut Context<'_>, buf: &[u8]) -> Poll<io::Result<usize>> {
+    // a real stream's write can be Pending (full send buffer): the simulator may make this one yield once
+    if !*yielded && IO_YIELD.with(|c| c.borrow_mut().as_mut().map(|f| f()).unwrap_or(false)) {
+        *yielded = true;
+        cx.waker().wake_by_ref();
+        return Poll::Pending;
+    }
+    *yielded = false;
+    Poll::Ready(sim.try_write(buf))
+}
+fn tcp_poll_read(sim: &Arc<dyn SimTcpStream>, cx: &mut Context<'_>, buf: &mut tokio::io::ReadBuf<'_>) -> Poll<io::Result<()>> {
+    if buf.remaining() == 0 {
+        return Poll::Ready(Ok(()));
+    }
+    let dst = buf.initialize_unfilled();
+    match sim.poll_read(cx, dst) {
+        Poll::Ready(Ok(n)) => {
+            buf.advance(n);
+            Poll::Ready(Ok(()))
+        }
+        Poll::Ready(Err(e)) => Poll::Ready(Err(e)),
+        Poll::Pending => Poll::Pending,
+    }
+}
+async fn yield_once() {
+    let mut yielded = false;
+    poll_fn(|cx| {
+        if yielded {
+            Poll::Ready(())
+        } else {
+            yielded = true;
+            cx.waker().wake_by_ref();
+            Poll::Pending
+        }
+    })
+    .await
+}
+
+/// Drop-in for `tokio::net::TcpStream` over a simulated connection.
+pub struct TcpStream { sh: Arc<TcpShared>, yielded: bool }
+impl std::fmt::Debug for TcpStream {
+    fn fmt(&self, f: &mut std::fmt::Formatter<'_>) -> std::fmt::Result { write!(f, "SimTcpStream({:?} -> {:?})", self.sh.sim.local_addr(), self.sh.sim.peer_addr()) }
+}
+impl TcpStream {
+    pub fn from_sim(sim: Arc<dyn SimTcpStream>) -> Self {
+        Self { sh: Arc::new(TcpShared { sim, halves: std::sync::atomic::AtomicUsize::new(1) }), yielded: false }
+    }
+    pub async fn connect<A: ToSocketAddrs>(addr: A) -> io::Result<Self> {
+        let sim = tcp_binder()?.connect(first_addr(addr)?)?;
+        let s = Self::from_sim(sim);
+        // dropping this future (a connect timeout) drops `s`, which closes the half-open socket
+        poll_fn(|cx| s.sh.sim.poll_connected(cx)).await?;
+        Ok(s)
+    }
+    pub fn local_addr(&self) -> io::Result<SocketAddr> { self.sh.sim.local_addr() }
+    pub fn peer_addr(&self) -> io::Result<SocketAddr> { self.sh.sim.peer_addr() }
+    pub fn set_nodelay(&self, _nodelay: bool) -> io::Result<()> { Ok(()) }
+    pub fn nodelay(&self) -> io::Result<bool> { Ok(true) }
+    pub fn try_write(&self, buf: &[u8]) -> io::Result<usize> {
+        if io_block_once() {
+            return Err(io::Error::new(io::ErrorKind::WouldBlock, "simulated full send buffer"));
+        }
+        self.sh.sim.try_write(buf)
+    }
+    pub async fn writable(&self) -> io::Result<()> { yield_once().await; Ok(()) }
+    pub fn into_split(self) -> (tcp::OwnedReadHalf, tcp::OwnedWriteHalf) {
+        let sh = self.sh.clone();
+        sh.halves.fetch_add(2, std::sync::atomic::Ordering::SeqCst); // the two halves + self
+        drop(self); // leaves the two halves
+        (tcp::OwnedReadHalf { sh: sh.clone() }, tcp::OwnedWriteHalf { sh, yielded: false })
+    }
+}
+impl Drop for TcpStream {
+    fn drop(&mut self) { self.sh.release(); }
+}
+impl tokio::io::AsyncRead for TcpStream {
+    fn poll_read(self: Pin<&mut Self>, cx: &mut Context<'_>, buf: &mut tokio::io::ReadBuf<'_>) -> Poll<io::Result<()>> {
+        tcp_poll_read(&self.sh.sim, cx, buf)
+    }
+}
+impl tokio::io::AsyncWrite for TcpStream {
+    fn poll_write(self: Pin<&mut Self>, cx: &mut Context<'_>, buf: &[u8]) -> Poll<io::Result<usize>> {
+        let me = self.get_mut();
+        tcp_poll_write(&me.sh.sim, &mut me.yielded, cx, buf)
+    }
+    fn poll_flush(self: Pin<&mut Self>, _cx: &mut Context<'_>) -> Poll<io::Result<()>> { Poll::Ready(Ok(())) }
+    fn poll_shutdown(self: Pin<&mut Self>, _cx: &mut Context<'_>) -> Poll<io::Result<()>> {
+        self.sh.sim.shutdown_write();
+        Poll::Ready(Ok(()))
+    }
+}
+/// Drop-ins for `tokio::net::tcp::{OwnedReadHalf, OwnedWriteHalf}`.
+pub mod tcp {
+    use super::*;
+    pub struct OwnedReadHalf { pub(super) sh: Arc<TcpShared> }
+    pub struct OwnedWriteHalf { pub(super) sh: Arc<TcpShared>, pub(super) yielded: bool }
+    impl std::fmt::Debug for OwnedReadHalf {
+        fn fmt(&self, f: &mut std::fmt::Formatter<'_>) -> std::fmt::Result { write!(f, "SimTcpRead({:?})", self.sh.sim.local_addr()) }
+    }
+    impl std::fmt::Debug for OwnedWriteHalf {
+        fn fmt(&self, f: &mut std::fmt::Formatter<'_>) -> std::fmt::Result { write!(f, "SimTcpWrite({:?})", self.sh.sim.local_addr()) }
+    }
+    impl OwnedReadHalf {
+        pub fn local_addr(&self) -> io::Result<SocketAddr> { self.sh.sim.local_addr() }
+        pub fn peer_addr(&self) -> io::Result<SocketAddr> { self.sh.sim.peer_addr() }
+    }
+    impl OwnedWriteHalf {
+        pub fn local_addr(&self) -> io::Result<SocketAddr> { self.sh.sim.local_addr() }
+        pub fn peer_addr(&self) -> io::Result<SocketAddr> { self.sh.sim.peer_addr() }
+        /// Like a real non-blocking socket: WouldBlock when the simulator says the send buffer is momentarily
+        /// full, otherwise a (possibly short) count.
+        pub fn try_write(&self, buf: &[u8]) -> io::Result<usize> {
+            if io_block_once() {
+                return Err(io::Error::new(io::ErrorKind::WouldBlock, "simulated full send buffer"));
+            }
+            self.sh.sim.try_write(buf)
+        }
+        /// Becomes writable after one trip through the scheduler (callers only wait here after a WouldBlock / short write).
+        pub async fn writable(&self) -> io::Result<()> { yield_once().await; Ok(()) }
+    }
+    impl Drop for OwnedReadHalf {
+        fn drop(&mut self) { self.sh.release(); }
+    }
+    impl Drop for OwnedWriteHalf {
+        fn drop(&mut self) {
+            // tokio: dropping the write half shuts down the sending direction
+            self.sh.sim.shutdown_write();
+            self.sh.release();
+        }
+    }
+    impl tokio::io::AsyncRead for OwnedReadHalf {
+        fn poll_read(self: Pin<&mut Self>, cx: &mut Context<'_>, buf: &mut tokio::io::ReadBuf<'_>) -> Poll<io::Result<()>> {
+            tcp_poll_read(&self.sh.sim, cx, buf)
+        }
+    }
+    impl tokio::io::AsyncWrite for OwnedWriteHalf {
+        fn poll_write(self: Pin<&mut Self>, cx: &mut Context<'_>, buf: &[u8]) -> Poll<io::Result<usize>> {
+            let me = self.get_mut();
+            tcp_poll_write(&me.sh.sim, &mut me.yielded, cx, buf)
+        }
+        fn poll_flush(self: Pin<&mut Self>, _cx: &mut Context<'_>) -> Poll<io::Result<()>> { Poll::Ready(Ok(())) }
+        fn poll_shutdown(self: Pin<&mut Self>, _cx: &mut Context<'_>) -> Poll<io::Result<()>> {
+            self.sh.sim.shutdown_write();
+            Poll::Ready(Ok(()))
+        }
+    }
+}
+
 // ---- wall clock as SystemTime / environment ------------------------------
 thread_local! { static VIRT_WALL: Cell<bool> = const { Cell::new(false) }; static LOCAL_IP: Cell<Option<std::net::IpAddr>> = const { Cell::new(None) }; }
 pub fn set_virtual_wall_clock(on: bool) { VIRT_WALL.with(|c| c.set(on)); }
